@@ -11,16 +11,11 @@ import re
 
 
 def generate(api):
-    try:
-        _generate(api)
-    except api.GenError as e:
-        # only C20 depends on this table: do not fail the generators of the other properties; C20_tables
-        # (props/C20.v) requires gen_cli_understood = true and so breaks, naming the reason below
-        api.emit("GenCli.v",
-                 "(* NOT UNDERSTOOD: %s *)\nDefinition gen_cli_understood : bool := false.\n"
-                 "Definition gen_cli_flags : list str := [].\nDefinition gen_cli_min_args : N := 0.\n"
-                 "Definition gen_cli_err_status : N := 0.\nDefinition gen_lint_order : list str := [].\n"
-                 % str(e).replace("*)", "* )"), "duckscript_cli/src")
+    # When the table cannot be read any more the previous GenCli.v stays in place (on a fresh checkout: the table of the
+    # unchanged tree) and the failure is reported through .cache/gen_status.json: run_cli / main / the linter are ALSO tied
+    # by translation (lib/gen/cli_gen.py, props/SrcCli.v), and Check.source_tie("cli") decides whether that tie stands in
+    # for this table (a NOTE) or whether the obligation is broken.  A stub with exit status 0 would make the model wrong.
+    _generate(api)
 
 
 def _generate(api):
